@@ -11,6 +11,8 @@ package main
 // count survives only if all incoming counts are the same form.
 
 import (
+	"fmt"
+	"os"
 	"strings"
 
 	"golang.org/x/tools/go/ssa"
@@ -140,6 +142,13 @@ func (bf *boundsFn) bufTransfer(b *ssa.BasicBlock, in bufState) bufState {
 					r := rem.add(n, -1)
 					st[recv] = &r
 				} else {
+					if os.Getenv("BUFDEBUG") != "" && rem != nil {
+						fmt.Fprintf(os.Stderr, "  NEXT fail %s rem=%s n=%s facts:", recv, bf.affString(*rem), bf.affString(n))
+						for _, f := range bf.facts[b] {
+							fmt.Fprintf(os.Stderr, " [%s]", bf.affString(f))
+						}
+						fmt.Fprintln(os.Stderr)
+					}
 					st[recv] = nil
 				}
 			case "ReadByte":
